@@ -1,4 +1,5 @@
 pub mod c01;
+pub mod c14;
 pub mod c18;
 pub mod compare;
 pub mod diff;
@@ -67,6 +68,13 @@ pub fn dispatch(prop: &str, tier: &str) -> i32 {
                 chk.max_rows = 120;
             }
             crate::finish(&cfg, &chk, serde_json::json!({}))
+        }
+        "C14" => {
+            let mut cfg = crate::base_cfg("C14", tier);
+            cfg.runs = if quick { 4000 } else { 300_000 };
+            cfg.rule = "one run = one engine with 1-3 sessions scheduled concurrently, each executing a generated history of 10-35 statements (CREATE/DROP SCHEMA/TABLE/VIEW with IF [NOT] EXISTS, INSERT VALUES/SELECT incl. self-reference, CREATE TABLE AS, SET/RESET, statements failing at bind time or at run time on a late row, interleaved with SELECT *, count(*), list_tables/list_schemas/list_views, SHOW); every statement's outcome is compared with a sequential catalog+table model per session. Non-trivial = >=2 scheduling decisions with choice and >=1 Pending poll.".into();
+            cfg.assumptions = vec!["temporary objects only (the engine rejects persistent tables)".into(), "dropping a non-empty schema and dropping a table under a view are not generated (documentation silent)".into()];
+            crate::finish(&cfg, &c14::CatalogCheck { big: true }, serde_json::json!({}))
         }
         "C18" => {
             let mut cfg = crate::base_cfg("C18", tier);
